@@ -210,6 +210,9 @@ type Line struct {
 
 // Response is a structured upgrade response.
 type Response struct {
+	// Prefix is sent before the status line (stray line ends or blanks such
+	// as "\r\n", "\n", " ", "\t", "\r\n\r\n"); normally empty.
+	Prefix     string `json:"prefix,omitempty"`
 	Version    string `json:"version"`                // token before the first SP, e.g. "HTTP/1.1"
 	Status     string `json:"status"`                 // token between the first and the second SP
 	NoReasonSP bool   `json:"no_reason_sp,omitempty"` // status line ends right after the status token (no second SP, no reason)
@@ -235,6 +238,7 @@ func eol(lf bool) string {
 // line) for the key the dialer sent, ignoring Cut.
 func (r *Response) Head(key string) []byte {
 	var b bytes.Buffer
+	b.WriteString(r.Prefix)
 	b.WriteString(r.Version)
 	b.WriteByte(' ')
 	b.WriteString(r.Status)
